@@ -20,7 +20,11 @@ def gen_case(rng: random.Random) -> dict[str, Any]:
         regs = []
         for _ in range(rng.randint(0, 4)):
             nid += 1
-            regs.append({"id": nid, "pass": rng.random() < 0.5, "async": rng.random() < 0.4})
+            regs.append({"id": nid, "pass": rng.random() < 0.5, "async": rng.random() < 0.4, "late": []})
+            if rng.random() < 0.2:
+                for _ in range(rng.randint(1, 2)):
+                    nid += 1
+                    regs[-1]["late"].append({"id": nid, "pass": rng.random() < 0.5, "async": False})
         comps.append({"regs": regs, "svc": rng.choice([0, 0, 1, 2]), "tick": rng.choice([0, 0, 1, 2])})
     ending: dict[str, Any] = {"k": kind, "comp": rng.randrange(ncomp), "mid": rng.random() < 0.5,
                               "sig": rng.choice(["SIGTERM", "SIGINT"]), "d": rng.choice([0, 1, 3])}
@@ -31,6 +35,8 @@ def gen_case(rng: random.Random) -> dict[str, Any]:
         ending["r"] = r
         if r == "int":
             ending["n"] = rng.choice([0, 0, 1, 5, 127, 128, 300, -1, -128])
+        if r == "other":
+            ending["ov"] = rng.randrange(9)     # index into impl.runner.NON_INTS
     if kind in ("cliRaise", "crashAfterStartup"):
         ending["e"] = rng.randrange(3)
     if kind in ("signalAfterStartup", "crashAfterStartup"):
@@ -81,10 +87,12 @@ class C15(Prop):
         apps = [
             [{"regs": [{"id": 1, "pass": True, "async": False}, {"id": 2, "pass": False, "async": True}], "svc": 1, "tick": 0}],
             [{"regs": [{"id": 1, "pass": False, "async": False}], "svc": 0, "tick": 1},
-             {"regs": [{"id": 2, "pass": True, "async": True}, {"id": 3, "pass": True, "async": False}], "svc": 1, "tick": 0},
+             {"regs": [{"id": 2, "pass": True, "async": True, "late": [{"id": 21, "pass": True, "async": False}]},
+                       {"id": 3, "pass": True, "async": False}], "svc": 1, "tick": 0},
              {"regs": [{"id": 4, "pass": False, "async": False}], "svc": 2, "tick": 2}],
         ]
-        endings: list[dict[str, Any]] = [{"k": "cliReturn", "r": "none"}, {"k": "cliReturn", "r": "other"}]
+        endings: list[dict[str, Any]] = [{"k": "cliReturn", "r": "none"}]
+        endings += [{"k": "cliReturn", "r": "other", "ov": ov} for ov in range(9)]
         endings += [{"k": "cliReturn", "r": "int", "n": n} for n in (0, 1, 2, 126, 127, 128, 255, 256, 1000, -1, -127, -128)]
         endings += [{"k": "cliRaise", "e": 1}, {"k": "startupFail"}, {"k": "startupTimeout"},
                     {"k": "signalDuringStartup", "sig": "SIGINT"}, {"k": "signalDuringStartup", "sig": "SIGTERM"},
@@ -106,7 +114,9 @@ class C15(Prop):
         return run_runner_case(case)
 
     def model_request(self, case, impl):
-        regs = [[l[1], l[2]] for l in impl["log"] if l[0] == "reg"]
+        specs = {r["id"]: r for c in case["comps"] for r in c["regs"]}
+        regs = [[l[1], l[2], [[x["id"], x["pass"]] for x in specs[l[1]].get("late", [])]]
+                for l in impl["log"] if l[0] == "reg"]
         e = dict(case["ending"])
         return {"kind": "runner", "regs": regs, "ending": e}
 
@@ -121,12 +131,23 @@ class C15(Prop):
     def monitor(self, case, impl):
         fails = []
         log = impl["log"]
-        regs = [l[1] for l in log if l[0] == "reg"]
+        regs = [l[1] for l in log if l[0] in ("reg", "lreg")]
         tds = [l[1] for l in log if l[0] == "td"]
         if sorted(tds) != sorted(regs):
             fails.append(f"teardown callbacks registered {regs}, run {tds} (each exactly once)")
-        elif tds != list(reversed(regs)):
-            fails.append(f"teardown callbacks registered {regs} ran as {tds}, not in reverse order")
+        else:
+            # reverse order of registration, also for what is registered during the teardown: every
+            # callback that runs is the most recently registered one that has not run yet
+            stack: list[int] = []
+            for l in log:
+                if l[0] in ("reg", "lreg"):
+                    stack.append(l[1])
+                elif l[0] == "td":
+                    if not stack or stack[-1] != l[1]:
+                        fails.append(f"teardown callback {l[1]} ran while the most recently registered pending one was "
+                                     f"{stack[-1] if stack else None} (registered {regs}, ran {tds})")
+                        break
+                    stack.pop()
         done = next(k for k, l in enumerate(log) if l[0] == "done")
         if any(l[0] == "td" for l in log[done:]):
             fails.append("a teardown callback ran after run_application had returned / raised")
